@@ -75,6 +75,7 @@ func rngFor(prop string, seed uint64, i int) *rand.Rand {
 
 // GenScenario is the pure function (property, tier, seed, index) -> scenario.
 func GenScenario(p props.Property, tier string, seed uint64, i int) *sim.Scenario {
+	props.CurrentSeed = seed
 	sc := p.Gen(rngFor(p.ID(), seed, i), tier, i)
 	sc.Property = p.ID()
 	sc.Seed = seed
